@@ -200,6 +200,8 @@ func explodeNode(node *CandidateNode, context Context) error {
 			node.AddChildren(node.Alias.Content)
 			node.Value = node.Alias.Value
 			node.Alias = nil
+			// the copied content may itself hold aliases and merge keys (the target need not have been exploded yet)
+			return explodeNode(node, context)
 		}
 		log.Debug("now I'm %v", NodeToString(node))
 		return nil
@@ -245,6 +247,11 @@ func applyAlias(node *CandidateNode, alias *CandidateNode, aliasIndex int, newCo
 	log.Debug("alias: %v", NodeToString(alias))
 	if alias.Kind != MappingNode {
 		return fmt.Errorf("merge anchor only supports maps, got %v instead", alias.Tag)
+	}
+	// the merged map may itself merge or alias and need not have been exploded yet: work on an exploded copy
+	alias = alias.Copy()
+	if err := explodeNode(alias, newContent); err != nil {
+		return err
 	}
 	for index := 0; index < len(alias.Content); index = index + 2 {
 		keyNode := alias.Content[index]
